@@ -159,7 +159,7 @@ Proof.
   intros HE HA. induction ps as [|[text [q|]] r IH]; intros acc unk sec.
   - rewrite !interp_go_nil. t_refl.
   - rewrite !interp_go_ref. t_bind_with (@eq chain); [now apply HA|].
-    intros pv pv' <-. destruct (to_string big_fuel pv) as [[s u] k]. apply IH.
+    intros pv pv' <-. destruct (to_string (ts_need pv) pv) as [[s u] k]. apply IH.
   - rewrite !interp_go_text. apply IH.
 Qed.
 
@@ -205,7 +205,7 @@ Proof.
   intros EN ER. unfold open_tail. rewrite (wt_check HW), <- EN, <- ER. destruct r as [iv ok].
   destruct prov as [pv|]; [|t_refl].
   destruct (negb ok || contains_unknowns iv || w_check We); [t_refl|].
-  destruct (export big_fuel iv) as [[| |s u m]|]; try (apply t_add_err; t_refl); [|apply t_oof].
+  destruct (export_t iv) as [[| |s u m]|]; try (apply t_add_err; t_refl); [|apply t_oof].
   apply t_call; [apply HW|apply HW|]. apply t_emit.
   destruct (pv_beh pv); try t_refl. apply t_add_err; t_refl.
 Qed.
@@ -283,7 +283,9 @@ Proof.
     destruct f as [|f1]; [rewrite walk_O; apply t_nn_l, tn_bind_oof; intro; omono_tac|].
     rewrite walk_S. cbn [walk_body].
     eapply t_left_bind; [apply inner_eval; eassumption|intro; omono_tac|].
-    unfold sec_chain, str_layer. rewrite big_fuel_S, va_scalar. apply t_add_err. t_refl.
+    unfold sec_chain, str_layer.
+    match goal with |- context [value_access (va_need ?c ?p) ?c ?p] => change (va_need c p) with 1%nat end.
+    rewrite va_scalar. apply t_add_err. t_refl.
 Qed.
 
 Lemma tstep_repr f : T_expr f -> T_typed f -> T_access f -> T_repr (S f).
